@@ -80,7 +80,7 @@ Definition cbca_step_1 : kernel :=
   ]
   [1].
 
-(* cbca_step_2(step1, cross_left, cross_right, range_col, range_col_right)   numba signature '(f8[:, :], i2[:, :, :], i2[:, :, :], i8[:], i8[:])'
+(* cbca_step_2(step1, cross_left, cross_right, range_col, range_col_right)   numba signature '(f8[:, :], i4[:, :, :], i4[:, :, :], i8[:], i8[:])'
    scalars: 0=n_col_ 1=n_row_ 2=col 3=row 4=right 5=left
    arrays: 0=step1 1=cross_left 2=cross_right 3=range_col 4=range_col_right 5=step2 6=sum_step2
    Python text (comments and docstring removed):
@@ -101,7 +101,7 @@ Definition cbca_step_1 : kernel :=
              sum_step2[col, range_col[row]] += right + left
      return step2, sum_step2 *)
 Definition cbca_step_2 : kernel :=
-  mkKernel [(F64, 2); (I16, 3); (I16, 3); (I64, 1); (I64, 1)] 6 7
+  mkKernel [(F64, 2); (I32, 3); (I32, 3); (I64, 1); (I64, 1)] 6 7
   [
     SAssign 0 (EShape 0 0);
     SAssign 1 (EShape 0 1);
@@ -144,7 +144,7 @@ Definition cbca_step_3 : kernel :=
   ]
   [1].
 
-(* cbca_step_4(step3, sum2, cross_left, cross_right, range_col, range_col_right)   numba signature '(f8[:, :], f4[:, :], i2[:, :, :], i2[:, :, :], i8[:], i8[:])'
+(* cbca_step_4(step3, sum2, cross_left, cross_right, range_col, range_col_right)   numba signature '(f8[:, :], f4[:, :], i4[:, :, :], i4[:, :, :], i8[:], i8[:])'
    scalars: 0=n_col_ 1=n_row_ 2=col 3=row 4=top 5=bot
    arrays: 0=step3 1=sum2 2=cross_left 3=cross_right 4=range_col 5=range_col_right 6=step4 7=sum4
    Python text (comments and docstring removed):
@@ -169,7 +169,7 @@ Definition cbca_step_3 : kernel :=
                  sum4[col, range_col[row]] += np.sum(sum2[col + 1 : col + bot + 1, range_col[row]])
      return step4, sum4 *)
 Definition cbca_step_4 : kernel :=
-  mkKernel [(F64, 2); (F32, 2); (I16, 3); (I16, 3); (I64, 1); (I64, 1)] 6 8
+  mkKernel [(F64, 2); (F32, 2); (I32, 3); (I32, 3); (I64, 1); (I64, 1)] 6 8
   [
     SAssign 0 (EShape 0 0);
     SAssign 1 (EShape 0 1);
@@ -192,12 +192,12 @@ Definition cbca_step_4 : kernel :=
   ]
   [6; 7].
 
-(* cross_support(image, len_arms, intensity)   numba signature 'i2[:, :, :](f4[:, :], i8, f4)'
+(* cross_support(image, len_arms, intensity)   numba signature 'i4[:, :, :](f4[:, :], i8, f4)'
    scalars: 0=len_arms 1=intensity 2=n_col_ 3=n_row_ 4=col 5=row 6=left_len 7=left 8=right_len 9=right 10=up_len 11=up_col 12=bot_len 13=bot
    arrays: 0=image 1=cross
    Python text (comments and docstring removed):
      n_col_, n_row_ = image.shape
-     cross = np.zeros((n_col_, n_row_, 4), dtype=np.int16)
+     cross = np.zeros((n_col_, n_row_, 4), dtype=np.int32)
      for col in range(n_col_):
          for row in range(n_row_):
              if np.isfinite(image[col, row]):
@@ -235,7 +235,7 @@ Definition cross_support : kernel :=
   [
     SAssign 2 (EShape 0 0);
     SAssign 3 (EShape 0 1);
-    SAlloc 1 [(EVar 2); (EVar 3); (EInt (4)%Z)] I16;
+    SAlloc 1 [(EVar 2); (EVar 3); (EInt (4)%Z)] I32;
     SFor 4 (EInt (0)%Z) (EVar 2) (EInt (1)%Z) [
       SFor 5 (EInt (0)%Z) (EVar 3) (EInt (1)%Z) [
         SIf (EUn UIsFinite (ELoad2 0 (EVar 4) (EVar 5))) [
